@@ -3,8 +3,9 @@
    Z, N, positive, nat stay the extracted inductive types.  No Extract Constant
    or Extract Inductive of our own. *)
 From Coq Require Import ExtrOcamlBasic.
-From Model Require Import Base Uni Notation Utf8 Inputrc HistFile.
+From Model Require Import Base Uni Notation Utf8 Inputrc HistFile Dispatch.
 Extraction "rlmodel_core.ml"
   dom escape unescape unescape_range convert_meta quote
   utf8_decode utf8_encode full_rune parse read_next
-  trim_space open_hist write crash_write.
+  trim_space open_hist write crash_write
+  match_bind loop init_state.
